@@ -1339,6 +1339,12 @@ func (b *ASTBuilder) buildComprehension(tsNode *sitter.Node, node *Node) {
 
 // buildYield builds a yield expression node
 func (b *ASTBuilder) buildYield(tsNode *sitter.Node) *Node {
+	// tree-sitter has one "yield" node for both forms; "yield from x" is the
+	// one with a "from" token
+	if b.hasChildOfType(tsNode, "from") {
+		return b.buildYieldFrom(tsNode)
+	}
+
 	node := NewNode(NodeYield)
 	node.Location = b.getLocation(tsNode)
 
